@@ -12,7 +12,15 @@ Schemes == {[mode |-> "scores", match |-> 2, mismatch |-> -2, open |-> -4, ext |
             [mode |-> "scores", match |-> 6, mismatch |-> -2, open |-> -2, ext |-> -2],
             [mode |-> "dna", match |-> 0, mismatch |-> 0, open |-> -20, ext |-> -1],
             [mode |-> "dna", match |-> 0, mismatch |-> 0, open |-> -4, ext |-> -1]}
-Init == c \in {[s1 |-> a, s2 |-> b, sch |-> s] : a \in Seqs, b \in Seqs, s \in Schemes}
+\* every cell of the two built-in tables: each ordered pair of symbols of the table's header, in a fixed context
+DnaSyms == {DnaFullOrder[k][1] : k \in 1..Len(DnaFullOrder)}
+ProtSyms == {Blosum62Order[k][1] : k \in 1..Len(Blosum62Order)}
+TableCases ==
+  {[s1 |-> <<65, 67, x, 71, 84>>, s2 |-> <<65, 67, y, 71, 84>>, sch |-> [mode |-> "dna", match |-> 0, mismatch |-> 0, open |-> -20, ext |-> -1]] :
+      x \in DnaSyms, y \in DnaSyms}
+  \cup {[s1 |-> <<81, 69, 76, x, 76, 69, 81>>, s2 |-> <<81, 69, 76, y, 76, 69, 81>>, sch |-> [mode |-> "prot", match |-> 0, mismatch |-> 0, open |-> -20, ext |-> -1]] :
+      x \in ProtSyms, y \in ProtSyms}
+Init == c \in {[s1 |-> a, s2 |-> b, sch |-> s] : a \in Seqs, b \in Seqs, s \in Schemes} \cup TableCases
 Next == UNCHANGED c
 Emit == PrintT(ToJson(c))
 =============================================================================
